@@ -1,217 +1,914 @@
 """C20 — single-thread confinement of TrajectoryStore (lock discipline).
 
-R1  every load and store of the owner record `active_in_thread` in executable
-    code lies inside one `with <lock>:` whose lock object is created once at
-    class or module level (threading.Lock/RLock); the deciding load and the
-    store share the same `with` body, and nothing that can block or fail with
-    the record half-updated (no call other than threading.get_ident) sits
-    between them.
-R2  who-may-write: only TrajectoryStore.__init__ stores the record, the value
-    stored is the current thread's identity, and nothing resets it.
-R3  the refusal: inside that critical section a `raise` is control-dependent on
-    a comparison of the record with the current thread identity, and no
-    statement of the constructor that performs a call precedes the critical
-    section (so no file is touched before the check).
+All rules are decided by one abstract interpretation over the CFGs of the
+constructor and of every function that touches the owner record.  The abstract
+value is the set of values the class-level record `active_in_thread` may hold
+as last observed by the running thread: a subset of {none, me, other}.  A test
+of the record against None / the current thread identity (directly, through a
+local bound from it, by `==`/`!=`/`is None`/`in (None, me)`/truthiness, in
+if / elif / guard clauses / `match` / conditional expressions, here or in a
+resolved callee) narrows the set on the branch taken.  Acquiring or releasing
+a lock forgets everything except "it is me" (only that fact is stable once the
+lock is gone), so what was learnt outside a critical section, or in another
+one, never justifies a store.  Names never matter: the record is the class
+attribute, the lock is whatever resolves to a `threading.Lock/RLock` created
+once at class or module level, the identity is whatever evaluates to
+`threading.get_ident()` (locals, resolved helpers, parameters all callers
+bind to it).
+
+R1  atomic claim: every store of the record happens while a lock is held that
+    is created once at class or module level and never rebound (a `with`, or
+    acquire()/try/finally-release()), and on every path to the store the same
+    hold of that lock has observed the record to be None (or already this
+    thread).  All such sections use one and the same lock object.
+R2  who may write what: the value stored is the current thread's identity
+    (never None, a thread name, a process id ...), the store goes to the class
+    that owns the record (not to `self`, `type(self)` or a `cls` that can be a
+    subclass, which would create a shadow and leave the record unset), and
+    nothing deletes the record.
+R3  refusal on every path: no path through the constructor reaches a use of
+    the file libraries, or the end of the constructor, unless the record has
+    been established to be the current thread on that path (claimed under R1
+    or observed equal).  Hence a thread that finds another owner cannot get
+    past the guard, the guard cannot be skipped under a condition, swallowed
+    by a handler, or run after files were touched.
 R4  (thorough) no subclass of TrajectoryStore defines __init__ without
-    delegating to super().__init__, and no other class-level attribute named
-    like the record shadows it.
+    delegating to super().__init__, and no __new__/__copy__/... bypass exists.
 """
 
 from __future__ import annotations
 
 import ast
 
-from ..astutil import ancestors, calls_in, call_name, guards_of, norm, walk_no_nested
-from ..loader import dotted_name, enclosing_function
+from ..astutil import ancestors, call_name, calls_in, local_defs, norm, walk_no_nested
+from ..cfg import CFG
+from ..effects import fs_effect_of_call
+from ..loader import FunctionInfo, dotted_name, enclosing_function
+from ..resolve import callers_of, closure, resolve_call
 
 STORE = 'trajectories/store.py'
 RECORD = 'active_in_thread'
-LOCK_CTORS = {'threading.Lock', 'threading.RLock', 'Lock', 'RLock'}
-IDENT_CALLS = {'threading.get_ident', 'get_ident', 'threading.get_native_id', 'get_native_id'}
+OWNER = 'TrajectoryStore'
+LOCK_CTORS = {'threading.Lock', 'threading.RLock', '_thread.allocate_lock', '_thread.RLock'}
+IDENT_CALLS = {'threading.get_ident', 'threading.get_native_id', '_thread.get_ident', '_thread.get_native_id'}
+THREAD_CALLS = {'threading.current_thread', 'threading.currentThread'}
+TOP = frozenset('NMO')
+ME = frozenset('M')
+NAMES = {'N': 'unset', 'M': 'this thread', 'O': 'another thread'}
 
 
-def _record_accesses(prog, cls_name):
-    """All Attribute nodes `.active_in_thread` in the program's src tree."""
-    out = []
-    for m in prog.src_modules():
-        for n in ast.walk(m.tree):
-            if isinstance(n, ast.Attribute) and n.attr == RECORD:
-                out.append((m, n))
-    return out
+def _show(S) -> str:
+    return '{' + ', '.join(NAMES[x] for x in 'NMO' if x in S) + '}'
 
 
-def _lock_decl(prog, m, cls, expr):
-    """Return a description if expr names a lock created once at class/module
-    level, else None."""
-    d = dotted_name(expr)
-    if d is None:
+def _stable(S):
+    return S if S == ME else TOP
+
+
+def _qual(m, e: ast.AST) -> str:
+    """dotted name of a callee / attribute with the module's import aliases resolved"""
+    d = dotted_name(e)
+    if not d:
+        return ''
+    head, _, rest = d.partition('.')
+    tgt = m.imports.get(head)
+    if tgt:
+        return tgt + ('.' + rest if rest else '')
+    return d
+
+
+class Analysis:
+    def __init__(self, ctx):
+        self.ctx = ctx
+        self.prog = ctx.prog
+        self.m = self.prog.module(STORE)
+        self.cls = self.m.cls(OWNER)
+        self.fn_of_node = {}
+        for mm in self.prog.src_modules():
+            for fi in mm.functions.values():
+                self.fn_of_node.setdefault(id(fi.node), fi)
+        self.accesses = self._find_accesses()
+        self.record_fns = {}
+        for mm, n, kind, fi in self.accesses:
+            if fi is not None:
+                self.record_fns[(fi.file, fi.qualname)] = fi
+        self._relevant = {}
+        self._touch = {}
+        self._param = {}
+        self._memo = {}
+        self._active = set()
+        self._collected = set()
+        self._cfg = {}
+        self._locks = {}
+        self.store_obs = {}       # (file, qualname, line, text) -> dict
+        self.lock_keys = {}       # lock key -> description (locks that guard a store)
+        self.refusals = []        # (fi, line) raise nodes taken only when another thread owns
+        self.analysed = set()
+
+    # ---- the record ---------------------------------------------------------
+    def _find_accesses(self):
+        out = []
+        for mm in self.prog.src_modules():
+            for n in ast.walk(mm.tree):
+                kind = None
+                if isinstance(n, ast.Attribute) and n.attr == RECORD:
+                    kind = 'store' if isinstance(n.ctx, ast.Store) else 'del' if isinstance(n.ctx, ast.Del) else 'load'
+                elif isinstance(n, ast.Call) and isinstance(n.func, ast.Name) and len(n.args) >= 2 \
+                        and n.func.id in ('setattr', 'delattr', 'getattr', 'hasattr') \
+                        and isinstance(n.args[1], ast.Constant) and n.args[1].value == RECORD:
+                    kind = {'setattr': 'store', 'delattr': 'del'}.get(n.func.id, 'load')
+                if kind is None:
+                    continue
+                fn = enclosing_function(n)
+                fi = self.fn_of_node.get(id(fn)) if fn is not None else None
+                if fn is not None and fi is None:
+                    fi = FunctionInfo(fn.name, fn, mm, None)
+                out.append((mm, n, kind, fi))
+        return out
+
+    def class_ref(self, fi, e) -> str | None:
+        """how expression e denotes (a class carrying) the record: 'class' the owning class by name, 'sub' a subclass
+        by name, 'cls' / 'self' / 'type' through the receiver, None for anything else"""
+        if isinstance(e, ast.Name):
+            if e.id == 'self' and fi.cls is not None and fi.params[:1] == ['self']:
+                return 'self' if fi.cls.is_subclass_of(OWNER) else None
+            if e.id == 'cls' and fi.cls is not None and fi.params[:1] == ['cls']:
+                return 'cls' if fi.cls.is_subclass_of(OWNER) else None
+        if isinstance(e, ast.Attribute) and e.attr == '__class__' and self.class_ref(fi, e.value) == 'self':
+            return 'type'
+        if isinstance(e, ast.Call) and isinstance(e.func, ast.Name) and e.func.id == 'type' and len(e.args) == 1 \
+                and self.class_ref(fi, e.args[0]) == 'self':
+            return 'type'
+        if isinstance(e, (ast.Name, ast.Attribute)):
+            c = self.prog.resolve_class_expr(fi.module, e)
+            if c is self.cls:
+                return 'class'
+            if c is not None and c.is_subclass_of(OWNER):
+                return 'sub'
         return None
-    parts = d.split('.')
-    name = parts[-1]
-    # class-level: TrajectoryStore._lock / cls._lock / self._lock / type(self)._lock
-    if len(parts) >= 2 and parts[-2] in (cls.name, 'cls', 'self'):
-        for c in cls.mro():
-            v = c.class_assignments().get(name)
-            if v is not None and isinstance(v, ast.Call) and call_name(v) in LOCK_CTORS:
-                return f'class attribute {c.name}.{name} = {norm(v)}'
+
+    def record_read(self, fi, e) -> bool:
+        if isinstance(e, ast.Attribute) and e.attr == RECORD and isinstance(e.ctx, ast.Load):
+            return True
+        if isinstance(e, ast.Call) and isinstance(e.func, ast.Name) and e.func.id == 'getattr' and len(e.args) >= 2 \
+                and isinstance(e.args[1], ast.Constant) and e.args[1].value == RECORD:
+            return True
+        return False
+
+    # ---- the lock ------------------------------------------------------------
+    def _is_lock_ctor(self, m, v) -> bool:
+        return isinstance(v, ast.Call) and _qual(m, v.func) in LOCK_CTORS
+
+    def _rebound(self, name: str, module_level_in=None) -> str | None:
+        """a place where the lock `name` is bound again at run time"""
+        for mm in self.prog.src_modules():
+            for n in ast.walk(mm.tree):
+                base = None
+                if isinstance(n, ast.Attribute) and n.attr == name and isinstance(n.ctx, (ast.Store, ast.Del)):
+                    base = n.value
+                elif isinstance(n, ast.Call) and isinstance(n.func, ast.Name) and n.func.id in ('setattr', 'delattr') \
+                        and len(n.args) >= 2 and isinstance(n.args[1], ast.Constant) and n.args[1].value == name:
+                    base = n.args[0]
+                if base is None:
+                    continue
+                if module_level_in is None:
+                    # a class-level lock: only a store on the class, an instance or a subclass of it rebinds it; the same
+                    # attribute name on an unrelated object is somebody else's
+                    fn = enclosing_function(n)
+                    fi = self.fn_of_node.get(id(fn)) if fn is not None else None
+                    ctxfi = fi if fi is not None else FunctionInfo('<module>', ast.parse('def f(): pass').body[0], mm, None)
+                    ref = self.class_ref(ctxfi, base)
+                    if ref is None and not (isinstance(base, ast.Name) and base.id in ('self', 'cls') and fi is not None
+                                            and fi.cls is None):
+                        other = self.prog.resolve_class_expr(mm, base) if isinstance(base, (ast.Name, ast.Attribute)) else None
+                        if other is not None or (isinstance(base, ast.Name) and base.id in ('self', 'cls')):
+                            continue
+                return f'{mm.relpath}:{n.lineno} rebinds {norm(base)}.{name}'
+            if module_level_in is not None and mm is module_level_in:
+                for fi in mm.functions.values():
+                    if any(isinstance(x, ast.Global) and name in x.names for x in walk_no_nested(fi.node)) \
+                            and local_defs(fi.node, name):
+                        return f'{mm.relpath}: {fi.qualname} rebinds the global {name}'
         return None
-    if len(parts) == 1:
-        v = m.constants.get(name)
-        if v is not None and isinstance(v, ast.Call) and call_name(v) in LOCK_CTORS:
-            return f'module global {name} = {norm(v)}'
-    return None
 
+    def lock_of(self, fi, e, depth=0):
+        """(key, description) when e denotes a lock object that is created exactly once at class or module level,
+        else (None, reason)"""
+        k = (fi.file, fi.qualname, ast.dump(e))
+        if k not in self._locks:
+            self._locks[k] = self._lock_of(fi, e, depth)
+        return self._locks[k]
 
-def _enclosing_lock_with(prog, m, cls, node):
-    for a in ancestors(node):
-        if isinstance(a, (ast.FunctionDef, ast.AsyncFunctionDef)):
-            break
-        if isinstance(a, ast.With):
-            for it in a.items:
-                d = _lock_decl(prog, m, cls, it.context_expr)
-                if d:
-                    return a, d
-    return None, None
+    def _lock_of(self, fi, e, depth):
+        if depth > 3:
+            return None, 'not resolved'
+        m = fi.module
+        if isinstance(e, ast.Call):
+            if self._is_lock_ctor(m, e):
+                return None, f'`{norm(e)}` makes a new lock for every use: it excludes nobody'
+            callee = resolve_call(self.prog, fi, e)
+            if callee is not None:
+                rets = [r for r in walk_no_nested(callee.node) if isinstance(r, ast.Return)]
+                res = {self.lock_of(callee, r.value, depth + 1) for r in rets if r.value is not None}
+                if len(res) == 1 and len(rets) == len([r for r in rets if r.value is not None]):
+                    return next(iter(res))
+                return None, f'`{norm(e)}` does not return one fixed lock'
+            return None, f'`{norm(e)}` is not a lock created once at class or module level'
+        if isinstance(e, ast.Name):
+            a = fi.node.args
+            if e.id not in [x.arg for x in a.posonlyargs + a.args + a.kwonlyargs]:
+                ds = local_defs(fi.node, e.id)
+                if len(ds) == 1 and isinstance(ds[0], (ast.Assign, ast.AnnAssign)) and ds[0].value is not None:
+                    return self.lock_of(fi, ds[0].value, depth + 1)
+                if ds:
+                    return None, f'`{e.id}` is not a single fixed lock'
+            r = self.prog.resolve_name(m, e.id)
+            if isinstance(r, tuple) and r[0] == 'const':
+                v = r[1].constants[r[2]]
+                if self._is_lock_ctor(r[1], v):
+                    why = self._rebound(r[2], r[1])
+                    if why:
+                        return None, f'the lock {r[2]} is not created once: {why}'
+                    return ('mod', r[1].relpath, r[2]), f'module global {r[2]} = {norm(v)}'
+                return None, f'module global {r[2]} = {norm(v)[:40]} is not a lock created at import time'
+            return None, f'`{e.id}` is not a lock created once at class or module level'
+        if isinstance(e, ast.Attribute):
+            ref = self.class_ref(fi, e.value)
+            owner = None
+            if ref in ('class', 'sub'):
+                owner = self.prog.resolve_class_expr(m, e.value)
+            elif ref in ('cls', 'self', 'type'):
+                owner = fi.cls
+            if owner is not None:
+                for c in owner.mro():
+                    ca = c.class_assignments()
+                    if e.attr in ca:
+                        v = ca[e.attr]
+                        if v is not None and self._is_lock_ctor(c.module, v):
+                            why = self._rebound(e.attr)
+                            if why:
+                                return None, f'the lock {c.name}.{e.attr} is not created once: {why}'
+                            return ('cls', c.name, e.attr), f'class attribute {c.name}.{e.attr} = {norm(v)}'
+                        return None, (f'class attribute {c.name}.{e.attr} = {norm(v) if v is not None else "<unset>"} is not a '
+                                      'lock created once when the class is defined (two first constructors can each make their own)')
+                return None, f'`{norm(e)}` is not a class-level lock'
+            q = _qual(m, e)
+            r = self.prog.resolve_dotted(q) if q else None
+            if isinstance(r, tuple) and r[0] == 'const' and self._is_lock_ctor(r[1], r[1].constants[r[2]]):
+                why = self._rebound(r[2], r[1])
+                if why:
+                    return None, f'the lock {r[2]} is not created once: {why}'
+                return ('mod', r[1].relpath, r[2]), f'module global {r[2]} = {norm(r[1].constants[r[2]])}'
+        return None, f'`{norm(e)}` is not a lock created once at class or module level'
+
+    def sections(self, fi):
+        """{id(stmt): (stmt, key, description)} for the lock regions of fi: `with <lock>` and
+        `<lock>.acquire(); try: ... finally: <lock>.release()`; plus the reasons of with-items that are no lock"""
+        key = (fi.file, fi.qualname)
+        if key in self._cfg and 'sections' in self._cfg[key]:
+            return self._cfg[key]['sections'], self._cfg[key]['nolock']
+        secs, nolock = {}, {}
+        for n in walk_no_nested(fi.node):
+            if isinstance(n, (ast.With, ast.AsyncWith)):
+                for it in n.items:
+                    k, d = self.lock_of(fi, it.context_expr)
+                    if k is not None:
+                        secs[id(n)] = (n, k, d)
+                    elif any(isinstance(x, ast.Attribute) and x.attr == RECORD for s in n.body for x in ast.walk(s)):
+                        nolock[id(n)] = (n, d)
+            if isinstance(n, ast.Try) and n.finalbody:
+                rel = [c for s in n.finalbody for c in calls_in(s)
+                       if isinstance(c.func, ast.Attribute) and c.func.attr == 'release']
+                par = getattr(n, '_parent', None)
+                for c in rel:
+                    k, d = self.lock_of(fi, c.func.value)
+                    if k is None:
+                        continue
+                    for fld in ('body', 'orelse', 'finalbody'):
+                        blk = getattr(par, fld, None)
+                        if isinstance(blk, list) and n in blk:
+                            i = blk.index(n)
+                            prev = blk[i - 1] if i else None
+                            if isinstance(prev, ast.Expr) and isinstance(prev.value, ast.Call) \
+                                    and isinstance(prev.value.func, ast.Attribute) and prev.value.func.attr == 'acquire' \
+                                    and self.lock_of(fi, prev.value.func.value)[0] == k:
+                                secs[id(n)] = (n, k, d)
+        self._cfg.setdefault(key, {})['sections'] = secs
+        self._cfg[key]['nolock'] = nolock
+        return secs, nolock
+
+    def section_of(self, fi, stmt):
+        """innermost lock region whose body holds stmt (the `with` line itself is evaluated outside its region)"""
+        secs, _ = self.sections(fi)
+        if isinstance(stmt, ast.Try) and id(stmt) in secs:
+            return secs[id(stmt)]
+        for a in ancestors(stmt):
+            if isinstance(a, (ast.FunctionDef, ast.AsyncFunctionDef)):
+                break
+            if id(a) in secs:
+                return secs[id(a)]
+        return None
+
+    # ---- symbolic values ------------------------------------------------------
+    def param_sym(self, fi, name) -> str:
+        """'M' when every resolved call site binds the parameter to the current thread identity"""
+        k = (fi.file, fi.qualname, name)
+        if k in self._param:
+            return self._param[k]
+        self._param[k] = 'U'
+        params = fi.params
+        if name not in params:
+            return 'U'
+        idx = params.index(name)
+        implicit = 1 if fi.cls is not None and not any('staticmethod' in d for d in fi.decorators()) else 0
+        sites = callers_of(self.prog, fi)
+        syms = set()
+        for caller, c in sites:
+            off = implicit if isinstance(c.func, ast.Attribute) or (isinstance(c.func, ast.Name) and fi.name == '__init__') else 0
+            arg = None
+            pos = idx - off
+            if 0 <= pos < len(c.args) and not any(isinstance(a, ast.Starred) for a in c.args[:pos + 1]):
+                arg = c.args[pos]
+            else:
+                arg = next((kw.value for kw in c.keywords if kw.arg == name), None)
+            if arg is None:
+                d = self._default_of(fi, name)
+                syms.add(self._closed_sym(fi, d) if d is not None else 'U')
+            else:
+                syms.add(self._closed_sym(caller, arg))
+        r = 'M' if sites and syms == {'M'} else 'U'
+        self._param[k] = r
+        return r
+
+    def _closed_sym(self, fi, e):
+        k, d = self.sym(fi, e)
+        return self.param_sym(fi, d) if k == 'P' else k
+
+    @staticmethod
+    def _default_of(fi, name):
+        a = fi.node.args
+        pos = a.posonlyargs + a.args
+        for arg, d in zip(pos[len(pos) - len(a.defaults):], a.defaults):
+            if arg.arg == name:
+                return d
+        for arg, d in zip(a.kwonlyargs, a.kw_defaults):
+            if arg.arg == name:
+                return d
+        return None
+
+    def sym(self, fi, e, depth=0):
+        """('M' | 'N' | 'R' | 'U', binding statement of a snapshot or None).  R = the record's value as read by e."""
+        if e is None or depth > 6:
+            return 'U', None
+        if isinstance(e, ast.NamedExpr):
+            return self.sym(fi, e.value, depth + 1)
+        if isinstance(e, ast.Constant):
+            return ('N', None) if e.value is None else ('C', None)
+        if self.record_read(fi, e):
+            return 'R', None
+        if isinstance(e, ast.Attribute) and e.attr in ('ident', 'native_id') and isinstance(e.value, ast.Call) \
+                and _qual(fi.module, e.value.func) in THREAD_CALLS:
+            return 'M', None
+        if isinstance(e, ast.Call):
+            if _qual(fi.module, e.func) in IDENT_CALLS:
+                return 'M', None
+            callee = resolve_call(self.prog, fi, e)
+            if callee is not None and callee.name != '__init__':
+                rets = [r for r in walk_no_nested(callee.node) if isinstance(r, ast.Return)]
+                if rets and all(self.sym(callee, r.value, depth + 1)[0] == 'M' for r in rets):
+                    return 'M', None
+            return 'U', None
+        if isinstance(e, ast.Name):
+            a = fi.node.args
+            if e.id in [x.arg for x in a.posonlyargs + a.args + a.kwonlyargs]:
+                if not local_defs(fi.node, e.id):
+                    return 'P', e.id   # a parameter: resolved through the call sites only when it matters
+                return 'U', None
+            ds = local_defs(fi.node, e.id)
+            vals = []
+            for d in ds:
+                v = None
+                if isinstance(d, ast.Assign) and any(isinstance(t, ast.Name) and t.id == e.id for t in d.targets):
+                    v = d.value
+                elif isinstance(d, ast.AnnAssign) and isinstance(d.target, ast.Name):
+                    v = d.value
+                elif not isinstance(d, (ast.Assign, ast.AnnAssign, ast.AugAssign, ast.For, ast.With)):
+                    for x in ast.walk(d):
+                        if isinstance(x, ast.NamedExpr) and x.target.id == e.id:
+                            v = x.value
+                if v is None:
+                    return 'U', None
+                vals.append((self.sym(fi, v, depth + 1)[0], d))
+            if not vals:
+                # a capture pattern of a `match` on the record: `case owner if owner != me`
+                caps = [x for x in walk_no_nested(fi.node) if isinstance(x, ast.MatchAs) and x.name == e.id]
+                if caps:
+                    mts = set()
+                    for cp in caps:
+                        mc = getattr(cp, '_parent', None)
+                        mt = getattr(mc, '_parent', None)
+                        if cp.pattern is None and isinstance(mc, ast.match_case) and isinstance(mt, ast.Match) \
+                                and self.sym(fi, mt.subject, depth + 1) == ('R', None):
+                            mts.add(mt)
+                        else:
+                            return 'U', None
+                    return ('R', next(iter(mts))) if len(mts) == 1 else ('U', None)
+                r = self.prog.resolve_name(fi.module, e.id)
+                if isinstance(r, tuple) and r[0] == 'const':
+                    return self.sym(fi, r[1].constants[r[2]], depth + 1)[0], None
+                return 'U', None
+            kinds = {k for k, _ in vals}
+            if len(kinds) == 1:
+                k = next(iter(kinds))
+                if k == 'R':
+                    return ('R', vals[0][1]) if len(vals) == 1 else ('U', None)
+                return k, None
+            return 'U', None
+        return 'U', None
+
+    def not_identity(self, fi, e, depth=0) -> str | None:
+        """a reason when e is certainly not the identity of the current thread"""
+        if e is None or depth > 4:
+            return None
+        if isinstance(e, ast.Constant):
+            return f'the constant {e.value!r}'
+        if isinstance(e, ast.JoinedStr):
+            return 'a string'
+        for x in ast.walk(e):
+            if isinstance(x, ast.Attribute) and x.attr in ('name', 'getName', 'daemon'):
+                return 'a thread name (names are not unique)'
+            if isinstance(x, ast.Call) and _qual(fi.module, x.func) in ('os.getpid', 'os.getppid'):
+                return 'a process id (shared by all threads)'
+        if isinstance(e, ast.Name):
+            ds = local_defs(fi.node, e.id)
+            if len(ds) == 1 and isinstance(ds[0], (ast.Assign, ast.AnnAssign)) and ds[0].value is not None:
+                return self.not_identity(fi, ds[0].value, depth + 1)
+        return None
+
+    # ---- narrowing --------------------------------------------------------------
+    def _current(self, fi, e, at_stmt):
+        """kind of e for a test evaluated at at_stmt: 'R' only when it is the record as it is *now* (read in place,
+        or a snapshot bound in the same lock region)"""
+        k, d = self.sym(fi, e)
+        if k == 'P':
+            return ('P', d)
+        if k == 'R' and d is not None:
+            sa, sb = self.section_of(fi, d), self.section_of(fi, at_stmt)
+            if (sa[0] if sa else None) is not (sb[0] if sb else None):
+                return 'stale'
+        return k
+
+    def refine(self, fi, e, truth, S, at):
+        if isinstance(e, ast.UnaryOp) and isinstance(e.op, ast.Not):
+            return self.refine(fi, e.operand, not truth, S, at)
+        if isinstance(e, ast.NamedExpr):
+            return self.refine(fi, e.value, truth, S, at)
+        if isinstance(e, ast.BoolOp):
+            conj = isinstance(e.op, ast.And) == truth
+            if conj:  # all operands have truth value `truth`
+                for v in e.values:
+                    S = self.refine(fi, v, truth, S, at)
+                return S
+            out = frozenset()
+            cur = S
+            for v in e.values:  # first operand that decides; the earlier ones had the other value
+                out |= self.refine(fi, v, truth, cur, at)
+                cur = self.refine(fi, v, not truth, cur, at)
+            return out
+        if isinstance(e, ast.Compare) and len(e.ops) == 1:
+            op = e.ops[0]
+            a, b = e.left, e.comparators[0]
+            ka, kb = self._current(fi, a, at), self._current(fi, b, at)
+            if isinstance(op, (ast.In, ast.NotIn)) and ka == 'R' and isinstance(b, (ast.Tuple, ast.List, ast.Set)):
+                ks = {self._current(fi, x, at) for x in b.elts}
+                ks = {self.param_sym(fi, x[1]) if isinstance(x, tuple) else x for x in ks}
+                if ks <= {'N', 'M'}:
+                    sel = frozenset(ks)
+                    inside = isinstance(op, ast.In) == truth
+                    return S & sel if inside else S - sel
+                return S
+            if kb in ('R', 'stale') and ka not in ('R', 'stale'):
+                ka, kb = kb, ka
+            if ka == 'stale':
+                # a value the record held at some earlier time: only "it was this thread" survives (nobody else ever
+                # stores this thread's identity, nothing resets the record)
+                if isinstance(kb, tuple):
+                    kb = self.param_sym(fi, kb[1])
+                if kb == 'M' and isinstance(op, (ast.Eq, ast.NotEq)) and (isinstance(op, ast.Eq) == truth):
+                    return S & ME
+                return S
+            if ka != 'R':
+                return S
+            if isinstance(kb, tuple):
+                kb = self.param_sym(fi, kb[1])
+            if kb == 'N' and isinstance(op, (ast.Is, ast.Eq, ast.IsNot, ast.NotEq)):
+                eq = isinstance(op, (ast.Is, ast.Eq)) == truth
+                return S & frozenset('N') if eq else S - frozenset('N')
+            if kb == 'M' and isinstance(op, (ast.Eq, ast.NotEq)):
+                eq = isinstance(op, ast.Eq) == truth
+                return S & ME if eq else S - ME
+            return S
+        if self._current(fi, e, at) == 'R':  # truthiness: thread identities are non-zero integers
+            return S - frozenset('N') if truth else S & frozenset('N')
+        return S
+
+    def value_effect(self, fi, v, S, at):
+        """storing v into the record when its possible values are S: (problem or None, new value set)"""
+        if isinstance(v, ast.IfExp):
+            p1, s1 = self.value_effect(fi, v.body, self.refine(fi, v.test, True, S, at), at)
+            p2, s2 = self.value_effect(fi, v.orelse, self.refine(fi, v.test, False, S, at), at)
+            return p1 or p2, s1 | s2
+        if isinstance(v, ast.BoolOp) and isinstance(v.op, ast.Or) and len(v.values) == 2:
+            p1, s1 = self.value_effect(fi, v.values[0], self.refine(fi, v.values[0], True, S, at), at)
+            p2, s2 = self.value_effect(fi, v.values[1], self.refine(fi, v.values[0], False, S, at), at)
+            return p1 or p2, s1 | s2
+        k = self._current(fi, v, at)
+        if isinstance(k, tuple):
+            k = self.param_sym(fi, k[1])
+        if k == 'R':
+            return None, S
+        if k == 'M':
+            if not S:
+                return None, S
+            if S <= frozenset('NM'):
+                return None, ME
+            return 'overwrite', ME
+        if k == 'N':
+            return 'reset', frozenset('N')
+        why = self.not_identity(fi, v)
+        return ('notid:' + why) if why else 'unknown', TOP
+
+    # ---- interprocedural plumbing ---------------------------------------------------
+    def relevant(self, callee) -> bool:
+        k = (callee.file, callee.qualname)
+        if k not in self._relevant:
+            self._relevant[k] = False
+            self._relevant[k] = any((f.file, f.qualname) in self.record_fns for f in closure(self.prog, [callee]))
+        return self._relevant[k]
+
+    def touches_files(self, fi, c: ast.Call) -> str | None:
+        """the call uses the file libraries (netCDF4 / open / file-system), directly or in its resolved closure"""
+        def direct(mod, call):
+            q = _qual(mod, call.func)
+            if q.split('.')[0] in ('netCDF4', 'nc4', 'h5py', 'xarray') or q in ('open', 'io.open'):
+                return q
+            return fs_effect_of_call(call)
+        d = direct(fi.module, c)
+        if d:
+            return d
+        callee = resolve_call(self.prog, fi, c)
+        if callee is None:
+            return None
+        k = (callee.file, callee.qualname)
+        if k not in self._touch:
+            self._touch[k] = None
+            for f in closure(self.prog, [callee]):
+                for c2 in calls_in(f.node):
+                    d = direct(f.module, c2)
+                    if d:
+                        self._touch[k] = f'{f.qualname}: {d}'
+                        break
+                if self._touch[k]:
+                    break
+        return self._touch[k]
+
+    def record_targets(self, fi, stmt):
+        """[(reference kind, value expr or None for delete, text)] for every write of the record by a simple stmt"""
+        out = []
+        if isinstance(stmt, ast.Assign):
+            for t in stmt.targets:
+                elts = t.elts if isinstance(t, (ast.Tuple, ast.List)) else [t]
+                for i, x in enumerate(elts):
+                    if isinstance(x, ast.Attribute) and x.attr == RECORD:
+                        v = stmt.value
+                        if isinstance(t, (ast.Tuple, ast.List)):
+                            v = v.elts[i] if isinstance(v, (ast.Tuple, ast.List)) and len(v.elts) == len(elts) else ast.Name(id='<unpacked>')
+                        out.append((self.class_ref(fi, x.value), v, norm(x)))
+        elif isinstance(stmt, ast.AnnAssign) and stmt.value is not None:
+            x = stmt.target
+            if isinstance(x, ast.Attribute) and x.attr == RECORD:
+                out.append((self.class_ref(fi, x.value), stmt.value, norm(x)))
+        elif isinstance(stmt, ast.AugAssign):
+            x = stmt.target
+            if isinstance(x, ast.Attribute) and x.attr == RECORD:
+                out.append((self.class_ref(fi, x.value), ast.Name(id='<augmented>'), norm(x)))
+        elif isinstance(stmt, ast.Delete):
+            for x in stmt.targets:
+                if isinstance(x, ast.Attribute) and x.attr == RECORD:
+                    out.append((self.class_ref(fi, x.value), None, norm(x)))
+        if not isinstance(stmt, (ast.If, ast.While, ast.For, ast.With, ast.Try, ast.Match)):
+            for c in calls_in(stmt):
+                if isinstance(c.func, ast.Name) and c.func.id in ('setattr', 'delattr') and len(c.args) >= 2 \
+                        and isinstance(c.args[1], ast.Constant) and c.args[1].value == RECORD:
+                    v = c.args[2] if c.func.id == 'setattr' and len(c.args) > 2 else None
+                    out.append((self.class_ref(fi, c.args[0]), v, norm(c)[:60]))
+        return out
+
+    # ---- the abstract interpretation ------------------------------------------------------
+    def analyse(self, fi, inherited: bool, S0, collect: bool):
+        """possible values of the record when fi returns normally, entered with S0 (inherited: a caller holds the lock)"""
+        key = (fi.file, fi.qualname, inherited, S0)
+        if key in self._memo and (not collect or key in self._collected):
+            return self._memo[key]
+        if key in self._active:
+            return S0
+        self._active.add(key)
+        try:
+            return self._analyse(fi, inherited, S0, collect, key)
+        finally:
+            self._active.discard(key)
+
+    def _analyse(self, fi, inherited, S0, collect, key):
+        ck = (fi.file, fi.qualname)
+        g = self._cfg.setdefault(ck, {}).get('g')
+        if g is None:
+            g = self._cfg[ck]['g'] = CFG(fi.node)
+        base = ('h',) if inherited else None
+
+        def want(node):
+            if node.stmt is None:
+                return base
+            st = node.stmt
+            if node.kind in ('except', 'case'):
+                st = getattr(st, '_parent', st)
+            sec = self.section_of(fi, st) if not (node.kind == 'with') else self._outer(fi, st)
+            return ('w', id(sec[0])) if sec else base
+
+        def sync(node, st):
+            tag, S = st
+            w = want(node)
+            if tag != w:
+                return (w, _stable(S))
+            return st
+
+        def heads(node):
+            s = node.stmt
+            if node.kind == 'stmt':
+                return [s]
+            if node.kind == 'test':
+                return [s.test]
+            if node.kind == 'iter':
+                return [s.iter]
+            if node.kind == 'with':
+                return [i.context_expr for i in s.items]
+            if node.kind == 'match':
+                return [s.subject]
+            if node.kind == 'case':
+                return [s.guard] if s.guard is not None else []
+            return []
+
+        def transfer(node, st, emit=False):
+            tag, S = sync(node, st)
+            if node.stmt is None or node.kind in ('finally', 'dispatch', 'join', 'except'):
+                return (tag, S)
+            held = tag is not None
+            for h in heads(node):
+                if h is None:
+                    continue
+                for c in calls_in(h):
+                    callee = resolve_call(self.prog, fi, c)
+                    if callee is not None and self.relevant(callee) and not self.record_read(fi, c):
+                        S2 = self.analyse(callee, held, S if held else _stable(S), emit)
+                        S = S2 if held else _stable(S2)
+            if node.kind == 'stmt':
+                for ref, v, text in self.record_targets(fi, node.stmt):
+                    if v is None:
+                        prob, S2 = 'delete', TOP
+                    else:
+                        prob, S2 = self.value_effect(fi, v, S, node.stmt)
+                    if emit:
+                        self._emit_store(fi, node, ref, v, text, held, tag, S, prob)
+                    S = S2
+                if emit and isinstance(node.stmt, ast.Raise) and S and S <= frozenset('O'):
+                    self.refusals.append((fi, node.line))
+            return (tag, S)
+
+        def branch(node, lab, st):
+            tag, S = st
+            if node.kind == 'test':
+                return (tag, self.refine(fi, node.stmt.test, lab == 't', S, node.stmt))
+            if node.kind == 'case':
+                mc = node.stmt
+                match = getattr(mc, '_parent', None)
+                subj = self._current(fi, match.subject, match) if isinstance(match, ast.Match) else 'U'
+                pat = mc.pattern
+                S2 = S
+                if subj == 'R':
+                    sel = None
+                    if isinstance(pat, ast.MatchSingleton) and pat.value is None:
+                        sel = frozenset('N')
+                    elif isinstance(pat, ast.MatchValue) and self._current(fi, pat.value, match) == 'M':
+                        sel = ME
+                    if sel is not None:
+                        S2 = S & sel if lab == 't' else (S - sel if mc.guard is None else S)
+                if lab == 't' and mc.guard is not None:
+                    S2 = self.refine(fi, mc.guard, True, S2, match)
+                elif lab == 'f' and mc.guard is not None and isinstance(pat, ast.MatchAs) and pat.pattern is None:
+                    S2 = self.refine(fi, mc.guard, False, S2, match)
+                return (tag, S2)
+            return st
+
+        def join(a, b):
+            if a[0] == b[0]:
+                return (a[0], a[1] | b[1])
+            return (('x',), _stable(a[1]) | _stable(b[1]))
+
+        ins, _ = g.forward((base, S0), lambda n, s: transfer(n, s), join, branch_transfer=branch)
+        if collect:
+            self.analysed.add(ck)
+            self._collected.add(key)
+            for nid, st in ins.items():
+                transfer(g.nodes[nid], st, emit=True)
+        out = ins.get(g.exit)
+        res = sync(g.nodes[g.exit], out)[1] if out is not None else frozenset()
+        if not inherited:
+            res = _stable(res) if res else res
+        self._memo[key] = res
+        self._cfg[ck].setdefault('ins', {})[(inherited, S0)] = (g, ins, sync)
+        return res
+
+    def _outer(self, fi, with_stmt):
+        secs, _ = self.sections(fi)
+        for a in ancestors(with_stmt):
+            if isinstance(a, (ast.FunctionDef, ast.AsyncFunctionDef)):
+                break
+            if id(a) in secs:
+                return secs[id(a)]
+        return None
+
+    def _emit_store(self, fi, node, ref, v, text, held, tag, S, prob):
+        k = (fi.file, fi.qualname, node.line, text)
+        rec = self.store_obs.setdefault(k, {'fi': fi, 'line': node.line, 'text': text, 'ref': ref, 'value': v,
+                                            'held': True, 'S': frozenset(), 'prob': None, 'lock': None, 'stmt': node.stmt})
+        rec['held'] = rec['held'] and held
+        rec['S'] = rec['S'] | S
+        if prob and not rec['prob']:
+            rec['prob'] = prob
+        if held and tag and tag[0] == 'w':
+            sec = self.section_of(fi, node.stmt)
+            if sec:
+                rec['lock'] = (sec[1], sec[2])
 
 
 def run(ctx):
     prog = ctx.prog
-    m = prog.module(STORE)
-    cls = m.cls('TrajectoryStore')
+    A = Analysis(ctx)
+    m, cls = A.m, A.cls
     init = cls.methods.get('__init__')
     if init is None:
-        ctx.undecided('C20-R1', (m.relpath, 'TrajectoryStore'), '__init__', 'constructor not found')
-
-    accesses = _record_accesses(prog, cls.name)
-    exec_acc = [(mm, n) for mm, n in accesses if enclosing_function(n) is not None]
-    ctx.floor('C20-R1', len(exec_acc), 2, 'accesses of the owner record')
+        ctx.undecided('C20-R1', (m.relpath, OWNER), '__init__', 'constructor not found')
     if RECORD not in cls.class_assignments():
-        ctx.undecided('C20-R1', (m.relpath, 'TrajectoryStore'), RECORD,
-                      'owner record is no longer a class-level attribute')
+        ctx.undecided('C20-R1', (m.relpath, OWNER), RECORD, 'owner record is no longer a class-level attribute')
 
-    withs = {}
-    loads_in, stores_in = [], []
-    for mm, n in exec_acc:
-        fn = enclosing_function(n)
-        fi = next((f for f in mm.functions.values() if f.node is fn), None)
-        where = fi or (mm.relpath, fn.name)
-        w, decl = _enclosing_lock_with(prog, mm, cls, n)
-        is_store = isinstance(n.ctx, (ast.Store, ast.Del))
-        kind = 'store' if is_store else 'load'
-        ctx.ob('C20-R1', where, f'{kind} {norm(n)} under lock',
-               w is not None,
-               (f'inside `with` on {decl}' if w is not None else
-                f'{kind} of the owner record outside any `with <class/module-level lock>`: '
-                'two first constructors can interleave between the test and the set'),
-               line=n.lineno)
-        if w is not None:
-            withs[id(w)] = w
-            (stores_in if is_store else loads_in).append((w, n))
-        # R2: who may write
-        if is_store:
-            ok_site = mm is m and fi is not None and fi.qualname == 'TrajectoryStore.__init__'
-            ctx.ob('C20-R2', where, f'store {norm(n)} site', ok_site,
-                   'only the constructor records the owner' if ok_site else
-                   'the owner record is written outside TrajectoryStore.__init__ '
-                   '(a reset or takeover lets another thread in)', line=n.lineno)
+    exec_acc = [(mm, n, kind, fi) for mm, n, kind, fi in A.accesses if fi is not None]
+    ctx.floor('C20-R1', len(exec_acc), 2, 'accesses of the owner record in executable code')
+
+    # ---- run the interpretation: the constructor first (follows resolved callees), then every other writer ----
+    S_exit = A.analyse(init, False, TOP, True)
+    for mm, n, kind, fi in A.accesses:
+        if kind in ('store', 'del') and fi is not None and (fi.file, fi.qualname) not in A.analysed:
+            A.analyse(fi, False, TOP, True)
+
+    # module-level writes (outside any function): never part of an atomic claim
+    for mm, n, kind, fi in A.accesses:
+        if kind in ('store', 'del') and fi is None:
+            ctx.ob('C20-R2', (mm.relpath, '<module>'), f'{kind} {norm(n)[:60]} at module level', False,
+                   'the owner record is written outside the constructor\'s atomic claim', line=n.lineno)
+
+    # ---- R1 / R2 per store -------------------------------------------------------------------
+    n_stores = 0
+    for k, rec in sorted(A.store_obs.items(), key=lambda kv: (kv[0][0], kv[0][2])):
+        fi, line, text, S, prob = rec['fi'], rec['line'], rec['text'], rec['S'], rec['prob']
+        n_stores += 1
+        _, nolock = A.sections(fi)
+        if not rec['held']:
+            why_nolock = ''
+            for a in ancestors(rec['stmt']):
+                if id(a) in nolock:
+                    why_nolock = ' (' + nolock[id(a)][1] + ')'
+            ctx.ob('C20-R1', fi, f'store {text} under the lock', False,
+                   'the owner record is written while no lock created once at class or module level is held' + why_nolock +
+                   ': two first constructors can interleave between the test and the set', line=line)
+        else:
+            if rec['lock']:
+                A.lock_keys[rec['lock'][0]] = rec['lock'][1]
+            ctx.ob('C20-R1', fi, f'store {text} under the lock', True,
+                   'inside a critical section on ' + (rec['lock'][1] if rec['lock'] else 'the lock held by the caller'), line=line)
+            # the claim is justified by an observation made under the same hold of the lock
+            if prob in (None, 'overwrite'):
+                ok = prob is None
+                ctx.ob('C20-R1', fi, f'check and set {text} in one critical section', ok,
+                       'on every path to the store the record was seen to be unset (or already this thread) while the same '
+                       'lock was held' if ok else
+                       (f'when the store runs the record may be {_show(S)}: nothing read under this hold of the lock shows that it '
+                        'is still unset (the test was made before the lock was taken, in another critical section, or not at '
+                        'all), so two threads that both saw "no owner" both record themselves'), line=line)
+        # R2 value
+        if prob == 'delete':
+            ctx.ob('C20-R2', fi, f'{text} deleted', False, 'the owner record is removed: the next thread finds no owner', line=line)
+        elif prob == 'reset':
+            ctx.ob('C20-R2', fi, f'stored value {norm(rec["value"])} into {text}', False,
+                   'the owner record is reset: ownership is permanent for the process, after a reset a second thread is '
+                   'accepted while the first one still has (or can make) stores', line=line)
+        elif prob and prob.startswith('notid:'):
+            ctx.ob('C20-R2', fi, f'stored value {norm(rec["value"])[:60]} into {text}', False,
+                   f'the value recorded as owner is {prob[6:]}, not the identity of the current thread: two different threads '
+                   'can compare equal to it', line=line)
+        elif prob == 'unknown':
+            ctx.undecided('C20-R2', fi, f'stored value {norm(rec["value"])[:60]}',
+                          'cannot show that the stored value is the current thread identity (threading.get_ident())')
+        else:
+            ctx.ob('C20-R2', fi, f'stored value {norm(rec["value"])[:60]} into {text}', True,
+                   'the current thread identity', line=line)
+        # R2 receiver
+        ref = rec['ref']
+        ok_ref = ref == 'class'
+        why = 'stored on the class that owns the record'
+        if ref == 'cls':
+            sites = callers_of(prog, fi)
+            bad = [c for _, c in sites if not (isinstance(c.func, ast.Attribute) and A.class_ref(_, c.func.value) == 'class')]
+            ok_ref = bool(sites) and not bad and fi.cls is cls
+            why = ('`cls` is always the owning class: every call names it explicitly' if ok_ref else
+                   '`cls` is the class of the object being built when the method is reached through an instance or a '
+                   'subclass: the store creates a new attribute on the subclass and leaves the shared record unset, so '
+                   'another thread is accepted')
+        elif not ok_ref:
+            why = (f'the store goes through `{text.rsplit(".", 1)[0]}`: it creates an attribute on the instance/subclass and '
+                   'leaves the class-level record unset, so another thread is accepted')
+        ctx.ob('C20-R2', fi, f'receiver of the store {text}', ok_ref, why, line=line)
+    if n_stores == 0:
+        ctx.ob('C20-R2', init, 'owner record is recorded', False,
+               'no store of the owner record is left: nothing is ever refused', line=init.node.lineno)
+    ok = len(A.lock_keys) <= 1
+    ctx.ob('C20-R1', init, f'one lock guards every claim: {sorted(A.lock_keys.values())}', ok,
+           'all critical sections that write the record use the same lock object' if ok else
+           'the record is written under different locks: they do not exclude each other', nontrivial=False)
+
+    # loads: listed for the evidence; a read outside the lock is harmless as long as no claim rests on it (R1 above)
+    for mm, n, kind, fi in exec_acc:
+        if kind == 'load':
             st = n
             while not isinstance(st, ast.stmt):
                 st = st._parent
-            val = getattr(st, 'value', None)
-            ok_val = isinstance(val, ast.Call) and call_name(val) in IDENT_CALLS
-            ctx.ob('C20-R2', where, f'stored value {norm(val) if val is not None else "<del>"}',
-                   ok_val,
-                   'stores the current thread identity' if ok_val else
-                   'value stored into the owner record is not the current thread identity',
-                   line=n.lineno)
+            sec = A.section_of(fi, st) if (fi.file, fi.qualname) in A._cfg or True else None
+            ctx.ob('C20-R1', fi, f'load {norm(n)[:60]}', True,
+                   f'inside a critical section on {sec[2]}' if sec else
+                   'read without the lock: never used to justify a claim (see check-and-set)', line=n.lineno, nontrivial=False)
 
-    # same critical section for the deciding load and the store
-    store_withs = {id(w) for w, _ in stores_in}
-    load_withs = {id(w) for w, _ in loads_in}
-    for w, n in stores_in:
-        ok = id(w) in load_withs
-        ctx.ob('C20-R1', init, 'check and set in one critical section', ok,
-               'the `is not None` test and the store share one `with` body' if ok else
-               'the store is in a different critical section from the test', line=n.lineno)
-    if not stores_in and not any(isinstance(n.ctx, ast.Store) for _, n in exec_acc):
-        ctx.ob('C20-R2', init, 'owner record is recorded', False,
-               'no store of the owner record in the constructor: nothing is ever refused',
-               line=init.node.lineno)
-
-    # nothing that can fail/yield between test and set except get_ident
-    for w in withs.values():
-        for c in calls_in(w):
-            if any(c is it.context_expr for it in w.items):
+    # ---- R3: no way past the guard ---------------------------------------------------------------
+    ck = (init.file, init.qualname)
+    g, ins, sync = A._cfg[ck]['ins'][(False, TOP)]
+    work = []
+    for node in g.nodes:
+        if node.id not in ins or node.stmt is None or node.kind in ('finally', 'dispatch', 'join', 'except', 'case'):
+            continue
+        hs = {'stmt': [node.stmt], 'test': [getattr(node.stmt, 'test', None)], 'iter': [getattr(node.stmt, 'iter', None)],
+              'with': [i.context_expr for i in getattr(node.stmt, 'items', [])],
+              'match': [getattr(node.stmt, 'subject', None)]}.get(node.kind, [])
+        for h in hs:
+            if h is None:
                 continue
-            cn = call_name(c)
-            inside_raise = any(isinstance(a, ast.Raise) for a in ancestors(c))
-            ok = cn in IDENT_CALLS or inside_raise
-            ctx.ob('C20-R1', init, f'call {cn} inside critical section', ok,
-                   'thread identity / building the refusal' if ok else
-                   'a call inside the check-and-set section can fail or release control '
-                   'with the record half-updated', line=c.lineno, nontrivial=False)
+            for c in calls_in(h):
+                t = A.touches_files(init, c)
+                if t:
+                    work.append((node, c, t))
+    ctx.floor('C20-R3', len(work), 1, 'uses of the file libraries reachable from the constructor')
+    seen = set()
+    n_bad = 0
+    for node, c, t in sorted(work, key=lambda w: w[0].line):
+        S = sync(node, ins[node.id])[1]
+        ok = S == ME
+        key = call_name(c)
+        if key in seen and ok:
+            continue
+        if not ok:
+            n_bad += 1
+            if n_bad > 1:   # the first use reached without ownership says it all
+                continue
+        seen.add(key)
+        ctx.ob('C20-R3', init, f'ownership established before {call_name(c)}(…)', ok,
+               'on every path the record is the current thread here' if ok else
+               (f'this call uses the file libraries ({t}) on a path where the owner record may be {_show(S)}: the '
+                'constructor gets this far without having claimed the record or found itself the owner (guard skipped under '
+                'a condition, refusal swallowed, or check placed after the work)'), line=node.line)
+    ok = S_exit == ME or not S_exit
+    ctx.ob('C20-R3', init, 'no construction completes unless the record is the current thread', ok,
+           'every path to the end of the constructor has claimed the record under the lock or found it equal to the '
+           'current thread; a thread that finds another owner cannot return normally' if ok else
+           (f'the constructor can return while the owner record may be {_show(S_exit)}: some path neither claims the record, '
+            'nor finds the current thread as owner, nor refuses'), line=init.node.lineno)
+    ctx.stats['refusal_sites'] = sorted({f'{f.qualname}:{ln}' for f, ln in A.refusals})
 
-    # R3 refusal shape
-    found_refusal = False
-    for w in withs.values():
-        for n in walk_no_nested(w):
-            if isinstance(n, ast.Raise):
-                gs = guards_of(n, stop=w)
-                txts = [norm(g) for g, _, _ in gs]
-                cmp_ok = False
-                for g, pol, _ in gs:
-                    for x in ast.walk(g):
-                        if isinstance(x, ast.Compare) and len(x.ops) == 1:
-                            sides = [x.left, x.comparators[0]]
-                            has_rec = any(isinstance(s, ast.Attribute) and s.attr == RECORD for s in sides)
-                            has_id = any(isinstance(s, ast.Call) and call_name(s) in IDENT_CALLS for s in sides)
-                            if has_rec and has_id:
-                                neq = isinstance(x.ops[0], ast.NotEq)
-                                eq = isinstance(x.ops[0], ast.Eq)
-                                if (neq and pol) or (eq and not pol):
-                                    cmp_ok = True
-                found_refusal = found_refusal or cmp_ok
-                ctx.ob('C20-R3', init, f'refusal raise under {txts}', cmp_ok,
-                       'raise is taken exactly when the recorded owner differs from the current thread'
-                       if cmp_ok else
-                       'the refusal is not guarded by "recorded owner != current thread"',
-                       line=n.lineno)
-    if withs and not found_refusal:
-        ctx.ob('C20-R3', init, 'refusal present', False,
-               'no raise guarded by owner != current thread inside the critical section',
-               line=init.node.lineno)
-
-    # nothing with a call before the critical section in __init__
-    body = init.node.body
-    first_with_idx = None
-    for i, s in enumerate(body):
-        if any(s is w for w in withs.values()):
-            first_with_idx = i
-            break
-    if first_with_idx is not None:
-        pre = [s for s in body[:first_with_idx] if calls_in(s)]
-        ctx.ob('C20-R3', init, 'thread check precedes every call of the constructor', not pre,
-               'no call is made before the ownership check' if not pre else
-               f'statement with a call precedes the ownership check: {norm(pre[0])[:80]}',
-               line=(pre[0].lineno if pre else body[first_with_idx].lineno))
-    elif withs:
-        ctx.ob('C20-R3', init, 'critical section is a top-level statement of the constructor', False,
-               'the ownership check is nested under a condition: some constructions skip it',
-               line=init.node.lineno)
-    else:
-        # no lock at all: every path is reported above by R1; still check position
-        pass
-
-    # constructors of the same class: classmethods create/open/append go through cls(...)
     ctx.stats['record_accesses'] = len(exec_acc)
+    ctx.stats['functions_interpreted'] = sorted(q for _, q in A.analysed)
     ctx.assumptions += [
-        'threading.Lock provides mutual exclusion; threading.get_ident is unique per live thread',
+        'threading.Lock provides mutual exclusion; threading.get_ident is unique per live thread and never zero',
         'all TrajectoryStore instances are constructed through TrajectoryStore.__init__ '
         '(no __new__/copy/pickle bypass)',
     ]
 
     if ctx.tier == 'thorough':
-        for c in prog.subclasses_of('TrajectoryStore'):
+        for c in prog.subclasses_of(OWNER):
             if c is cls:
                 continue
             ini = c.methods.get('__init__')
@@ -226,5 +923,5 @@ def run(ctx):
                    'delegates' if delegates else 'subclass bypasses the ownership check')
         for cm in ('__new__', '__copy__', '__deepcopy__', '__reduce__', '__setstate__'):
             ok = cm not in cls.methods
-            ctx.ob('C20-R4', (m.relpath, 'TrajectoryStore'), f'no {cm} bypass', ok,
+            ctx.ob('C20-R4', (m.relpath, OWNER), f'no {cm} bypass', ok,
                    'not defined' if ok else f'{cm} can construct a store without the ownership check')
